@@ -168,6 +168,30 @@ pub struct Case {
     pub caps: Caps,
     pub prior: FaceSpec,
     pub cmds: Vec<Cmd>,
+    /// history: before the stream, the same encoder was asked to encode command
+    /// `cmds[i % len]` into a writer that accepts only `n` bytes and then refuses
+    /// (`WouldBlock`), e.g. a full non-blocking pipe; the failed call's outcome is ignored
+    #[serde(default)]
+    pub failed_before: Option<(u8, u8)>,
+}
+
+/// `io::Write` that accepts `room` more bytes and then fails with `WouldBlock`
+pub struct RefusingWriter {
+    pub room: usize,
+}
+
+impl std::io::Write for RefusingWriter {
+    fn write(&mut self, buf: &[u8]) -> std::io::Result<usize> {
+        if self.room == 0 && !buf.is_empty() {
+            return Err(std::io::ErrorKind::WouldBlock.into());
+        }
+        let n = buf.len().min(self.room);
+        self.room -= n;
+        Ok(n)
+    }
+    fn flush(&mut self) -> std::io::Result<()> {
+        Ok(())
+    }
 }
 
 fn dec_mode(n: usize) -> surf_n_term::DecMode {
@@ -498,6 +522,14 @@ fn esc(b: &[u8]) -> String {
 pub fn check_case(case: &Case) -> Outcome {
     let caps = case.caps;
     let mut enc = TTYEncoder::new(caps.to_lib());
+    if let Some((i, room)) = case.failed_before {
+        // whatever preceded: an encode call that failed half-way must leave nothing behind
+        let cmd = &case.cmds[i as usize % case.cmds.len()];
+        let mut w = RefusingWriter { room: room as usize };
+        let _ = guard_val(|| enc.encode(&mut w, cmd.to_lib())).map_err(|f| {
+            Fail::new(format!("encode/{}+{}", cmd.kind(), f.sig), format!("{:?} under {:?} into a refusing writer: {}", cmd, caps, f.msg))
+        })?;
+    }
     let mut all = Vec::new();
     let mut per_cmd: Vec<(usize, usize)> = Vec::new();
     for cmd in &case.cmds {
@@ -709,8 +741,8 @@ impl Property for C05 {
     }
 
     fn strategy(&self, _tier: Tier) -> BoxedStrategy<Case> {
-        (caps(), face_spec(), proptest::collection::vec(cmd(), 1..10))
-            .prop_map(|(caps, prior, cmds)| Case { caps, prior, cmds })
+        (caps(), face_spec(), proptest::collection::vec(cmd(), 1..10), proptest::option::weighted(0.2, (any::<u8>(), 0u8..48)))
+            .prop_map(|(caps, prior, cmds, failed_before)| Case { caps, prior, cmds, failed_before })
             .boxed()
     }
 
@@ -723,7 +755,7 @@ impl Property for C05 {
     }
 
     fn rule(&self) -> String {
-        "streams of 1-9 commands through one TTYEncoder under every colour depth x kitty-keyboard setting: every TerminalCommand variant except Raw/Image (positions biased to 0,1,79,65534,65535 and uniform below 2^31; signed moves/scrolls incl. 0, +-1, i32::MAX, i32::MIN; erase counts incl. 0; faces = optional opaque fg/bg x all 32 flag subsets x 6 underline styles; face modifications with every field combination; all DEC modes; palette indices; capability names [A-Za-z0-9]{1,8}; titles and characters of printable Unicode). The output is parsed by an independent ECMA-48/xterm parser: complete self-contained sequences only, operation list equal to the commanded operations, identical when parsed inside the stream; SGR judged by the reference SGR machine from an arbitrary prior state. non-trivial = >=2 command kinds, or a face with >=2 attributes and a colour, or an extreme numeric".into()
+        "streams of 1-9 commands through one TTYEncoder (in one case of five the encoder has first been asked to encode one of these commands into a writer that refuses after 0-47 bytes) under every colour depth x kitty-keyboard setting: every TerminalCommand variant except Raw/Image (positions biased to 0,1,79,65534,65535 and uniform below 2^31; signed moves/scrolls incl. 0, +-1, i32::MAX, i32::MIN; erase counts incl. 0; faces = optional opaque fg/bg x all 32 flag subsets x 6 underline styles; face modifications with every field combination; all DEC modes; palette indices; capability names [A-Za-z0-9]{1,8}; titles and characters of printable Unicode). The output is parsed by an independent ECMA-48/xterm parser: complete self-contained sequences only, operation list equal to the commanded operations, identical when parsed inside the stream; SGR judged by the reference SGR machine from an arbitrary prior state. non-trivial = >=2 command kinds, or a face with >=2 attributes and a colour, or an extreme numeric".into()
     }
 
     fn assumptions(&self) -> Vec<String> {
